@@ -519,12 +519,24 @@ impl<'a, SE: extensions::ShellExtensions> SimpleCommand<'a, SE> {
                     command_name,
                     params,
                 };
-                let spawn_result =
-                    invoke_shell_function(func_registration, cmd_context, &args[1..]).await?;
-                match spawn_result.wait().await? {
-                    crate::results::ExecutionWaitResult::Completed(result) => Ok(result),
-                    crate::results::ExecutionWaitResult::Stopped(_) => {
+                let stderr_params = cmd_context.params.clone();
+                let result = match invoke_shell_function(func_registration, cmd_context, &args[1..])
+                    .await
+                {
+                    Ok(spawn_result) => spawn_result.wait().await,
+                    Err(err) => Err(err),
+                };
+                match result {
+                    Ok(crate::results::ExecutionWaitResult::Completed(result)) => Ok(result),
+                    Ok(crate::results::ExecutionWaitResult::Stopped(_)) => {
                         Ok(ExecutionResult::stopped())
+                    }
+                    Err(err) => {
+                        // The stage runs in a subshell of its own: report the error there
+                        // and reduce it to the stage's status.
+                        let mut stderr = stderr_params.stderr(&shell);
+                        let _ = shell.display_error(&mut stderr, &err);
+                        Ok(err.into_result(&shell))
                     }
                 }
             });
